@@ -59,6 +59,10 @@ def obligations(tier, kf):
         obs.append(Ob(fn, dict(kf, N=1, kind=0, which='dest'), 120).twin())
     obs.append(Ob('m_install_make', dict(kf, N=1, kind=0, which='dest'), 300).mutant('install_no_destdir'))
     obs.append(Ob('n_install_ninja', dict(kf, N=1, kind=2, which='pfx'), 300).mutant('uninstall_wrong_root'))
+    for kind in (0, 2):
+        obs.append(Ob('n_install_ninja', dict(kf, N=1, kind=kind, which='pfx', dirs_reversed=True), 900,
+                      desc='n_install_ninja with the install-directory mapping in reverse insertion order, %s' % KINDS[kind]))
+    obs.append(Ob('n_install_ninja', dict(kf, N=1, kind=2, which='pfx', dirs_reversed=True), 300).mutant('install_paths_in_mapping_order'))
     hd = Ob('h_header_dir', dict(kf), 600, desc='header directory with nested files, 4 subdirectory names')
     obs += [hd, hd.twin(), hd.mutant('uninstall_dir_flattened')]
     xp = Ob('x_post_install', {'NSEQ': 3 if q else 4}, 1500,
